@@ -43,6 +43,7 @@ type spec struct {
 	Sync  []string   `json:"sync"`
 	Go    []string   `json:"go"`
 	Time  []string   `json:"time"`
+	Chan  []string   `json:"chan"`
 	Hooks []hookSpec `json:"hooks"`
 }
 
@@ -70,6 +71,7 @@ func main() {
 	add(sp.Sync, "sync")
 	add(sp.Go, "go")
 	add(sp.Time, "time")
+	add(sp.Chan, "chan")
 	for _, h := range sp.Hooks {
 		add([]string{h.File}, "hook")
 	}
@@ -115,6 +117,9 @@ func main() {
 			if kinds["time"] {
 				rw.rewriteTime()
 			}
+			if kinds["chan"] {
+				rw.rewriteChanSend()
+			}
 			if kinds["hook"] {
 				for _, h := range sp.Hooks {
 					if filepath.Join(*repo, h.File) == name {
@@ -142,6 +147,9 @@ func main() {
 			result[name] = dst
 			fmt.Fprintf(os.Stderr, "vinstr: %s: %d map ranges, %d go stmts, %d time calls, %d hooks, sync=%v\n",
 				rw.rel, rw.nMap, rw.nGo, rw.nTime, rw.nHook, rw.syncDone)
+			if rw.nChan > 0 {
+				fmt.Fprintf(os.Stderr, "vinstr: %s: %d channel sends\n", rw.rel, rw.nChan)
+			}
 		}
 	}
 	for f := range want {
@@ -179,6 +187,7 @@ type rewriter struct {
 	nGo       int
 	nTime     int
 	nHook     int
+	nChan     int
 	syncDone  bool
 	tmp       int
 }
@@ -371,6 +380,26 @@ func (rw *rewriter) rewriteGo() {
 		} else {
 			c.Replace(&ast.BlockStmt{List: stmts})
 		}
+		return false
+	}, nil)
+}
+
+// rewriteChanSend (R-chan): a send statement outside a select becomes verifrt.ChanSend(ch, v, site): under the
+// controlled scheduler the send is a scheduling point (enabled while the buffer has room); otherwise a plain send.
+func (rw *rewriter) rewriteChanSend() {
+	astutil.Apply(rw.file, func(c *astutil.Cursor) bool {
+		ss, ok := c.Node().(*ast.SendStmt)
+		if !ok {
+			return true
+		}
+		if _, inSelect := c.Parent().(*ast.CommClause); inSelect {
+			return true
+		}
+		rw.needRT = true
+		rw.nChan++
+		c.Replace(&ast.ExprStmt{X: &ast.CallExpr{
+			Fun:  &ast.SelectorExpr{X: ast.NewIdent("verifrt"), Sel: ast.NewIdent("ChanSend")},
+			Args: []ast.Expr{ss.Chan, ss.Value, &ast.BasicLit{Kind: token.STRING, Value: strconv.Quote(rw.site(ss.Pos()))}}}})
 		return false
 	}, nil)
 }
